@@ -25,11 +25,18 @@ Vocabulary (defined in the proof files, repeated here for the reader):
 namespace Tw.Props.C12
 open Tw.SnapXfer
 
-/-- Tie to the source: the literals of `DeltaReceiver::snap` (`0 <= num_parts <= 32`, `0 <= part`). -/
-theorem tie_receiver_snap : Tw.Gen.SnapXfer.lits_receiver_snap = [0, maxParts, 0] := by decide
+/-- Tie to the source: the argument checks of `DeltaReceiver::snap` — `num_parts` in `0 ..= 32`, `part`
+in `0 .. num_parts` — extracted as ranges whichever way they are spelt (`0 <= x && x <= 32`,
+`(0..=MAX_PARTS).contains(&x)`, …), and the integer literals of `snap` and its private helpers with
+file-level constants resolved, as a sorted multiset. -/
+theorem tie_receiver_snap :
+    Tw.Gen.SnapXfer.receiver_num_parts_range = (0, maxParts) ∧
+      Tw.Gen.SnapXfer.receiver_part_lower = 0 ∧
+      Tw.Gen.SnapXfer.receiver_part_below_num_parts = true ∧
+      Tw.Gen.SnapXfer.lits_receiver_snap = [0, 0, maxParts] := by decide
 
 /-- Tie to the source: part size 900, the literals of `delta_chunks` / `DeltaChunks::next`
-(`0`, `-1`, `- 1`; `0`, `1`, `+ 1`, `+= 1`), and the wrapping subtraction (fix of D8). -/
+(`0`, `-1`, `- 1`; `0`, `1`, `+ 1`, `+= 1`; sorted, constants resolved), and the wrapping subtraction (fix of D8). -/
 theorem tie_delta_chunks :
     partSize = 900 ∧ Tw.Gen.SnapXfer.lits_delta_chunks = [0, 1, 1] ∧
       Tw.Gen.SnapXfer.lits_delta_chunks_next = [0, 1, 1, 1] ∧
